@@ -3,6 +3,7 @@ package props
 import (
 	"context"
 	"fmt"
+	"math"
 	"strings"
 	"sync"
 	"sync/atomic"
@@ -613,7 +614,36 @@ func leakKey(stack string) string {
 // c12CloseSemantics: sequential, per-handle close semantics in isolation (incl. Rollback/Get sequences around Close).
 func c12CloseSemantics(c *core.Ctx) {
 	p := &c12Prog{c: c}
-	switch c.Rng.IntN(5) {
+	switch c.Rng.IntN(6) {
+	case 5: // a custom cleaner that always asks for more than there is ("purge": the shift is applied as far as
+		// possible), so that it is also evaluated, with a positive answer, on an EMPTY buffer: Put, NewConsumer and Close
+		// still complete, Done closes, nothing is left running
+		ask := core.Pick(c.Rng, 1, 3, math.MaxInt)
+		b := newBuffer(cleanerSpec{}, core.Pick(c.Rng, 0, 200*time.Microsecond), func(bigbuff.Cleaner) bigbuff.Cleaner {
+			return func(size int, offsets []int) int { return ask }
+		})
+		ok := p.bounded("Put/NewConsumer under a purging cleaner", func() {
+			for i := 0; i < 1+c.Rng.IntN(4); i++ {
+				b.Put(context.Background(), i)
+				time.Sleep(time.Duration(c.Rng.IntN(200)) * time.Microsecond) // the cleaner empties the buffer and is asked again
+			}
+			cons, err := b.NewConsumer()
+			if err == nil {
+				b.Put(context.Background(), "x")
+				cons.Close()
+			}
+			b.Put(context.Background(), "y")
+		})
+		if ok {
+			ok = p.bounded("Buffer.Close under a purging cleaner", func() {
+				if err := b.Close(); err != nil {
+					p.problem("close-error", "first Buffer.Close returned %v", err)
+				}
+			})
+		}
+		if ok {
+			p.checkBufferClosed(b, nil, nil)
+		}
 	case 4: // Buffer.Close while one consumer still holds an uncommitted read: Close may not complete (and may not
 		// report completion: Done, consumers closed) before that read is committed or rolled back
 		b := newBuffer(cleanerSpec{}, core.Pick(c.Rng, 0, time.Millisecond), nil)
